@@ -233,6 +233,11 @@ func lexMessageHeader(l *lexer) stateFn {
 			l.emit(tokenTypeLeftAngleBracket)
 			return lexMessageText
 		default:
+			if unicode.IsSpace(r) {
+				// Other unicode whitespace, which must not become part of a message name
+				l.ignore()
+				break
+			}
 			for {
 				r := l.next()
 				if r == eof || unicode.IsSpace(r) || strings.HasPrefix(l.input[l.pos-1:], "//") {
